@@ -1,0 +1,61 @@
+//go:build verif
+
+package frugal
+
+// Hooks for the C15 verification harness (transport lifecycle), compiled only
+// with the "verif" build tag. They add no behaviour to the transport: the read
+// loop calls verifC15Yield at the points where it is about to touch shared
+// state, so that an external harness can observe (and order) those steps.
+
+import "sync/atomic"
+
+var verifC15Hook atomic.Value // of func(point string, err error)
+
+// VerifC15SetHook installs the function called at the read loop's yield points
+// ("exit", "err", "close-eof", "close-err", "close-exec"). nil removes it.
+func VerifC15SetHook(h func(point string, err error)) {
+	if h == nil {
+		h = func(string, error) {}
+	}
+	verifC15Hook.Store(h)
+}
+
+func verifC15Yield(point string, err error) {
+	if h, ok := verifC15Hook.Load().(func(string, error)); ok && h != nil {
+		h(point, err)
+	}
+}
+
+// VerifC15State reports the adapter transport's internal isOpen flag and the
+// number of tokens waiting in its current close signal channel.
+func VerifC15State(t FTransport) (isOpen bool, tokens int, ok bool) {
+	f, ok := t.(*fAdapterTransport)
+	if !ok {
+		return false, 0, false
+	}
+	f.mu.RLock()
+	defer f.mu.RUnlock()
+	return f.isOpen, len(f.closeSignal), true
+}
+
+type verifC15Registry struct {
+	fRegistry
+	rec func(frame []byte, err error)
+}
+
+func (r *verifC15Registry) Execute(frame []byte) error {
+	err := r.fRegistry.Execute(frame)
+	r.rec(frame, err)
+	return err
+}
+
+// VerifC15WrapRegistry makes the adapter transport report every frame its read
+// loop hands to the registry, with the registry's verdict.
+func VerifC15WrapRegistry(t FTransport, rec func(frame []byte, err error)) bool {
+	f, ok := t.(*fAdapterTransport)
+	if !ok {
+		return false
+	}
+	f.registry = &verifC15Registry{fRegistry: f.registry, rec: rec}
+	return true
+}
